@@ -94,10 +94,12 @@ example : wfRef { range := c!"(bases 1 to 2686)", authors := c!"Norrander J, Kem
 /-! ## FEATURES -/
 
 /-- Every feature in file order with its key, its location text (also written on several lines, with or
-without qualifiers) and every qualifier value verbatim — values over printable ASCII other than the double
-quote, including '/', '=', leading and trailing blanks, values wrapped at any set of blanks (also before a
-'/'), `/translation` values cut anywhere, features without qualifiers — for every table followed by a line
-`stop` that is a keyword line and not a feature-table line (`ORIGIN`). -/
+without qualifiers) and every qualifier value verbatim — values over printable ASCII (a quotation mark may
+stand inside a value, not at either end), including '/', '=', leading and trailing blanks, values wrapped at
+any set of blanks (also before a '/', but never between a quotation mark and a '/'), `/translation` values cut
+anywhere, values written without quotes or not at all, keys over all visible characters except `=`, `/`, `"`,
+features without qualifiers — for every table followed by a line `stop` that is a keyword line and not a
+feature-table line (`ORIGIN`, or an extra keyword such as `CONTIG`). -/
 theorem features_recovered (fs : List RFeature) (ls : List FeatLayout) (stop : Str) (B : List Str)
     (hw : ∀ f ∈ fs, wfFeature f = true) (hm : quickMetaCheck stop = .ok true) (hs : FStop stop) :
     getFeatures (featsLines fs ls ++ stop :: B) = .ok (fs.map toFeature) :=
@@ -146,7 +148,8 @@ LOCUS gaps, where each keyword block, reference block and qualifier value is wra
 trailing blanks, final newline or not — `Parse` applied to the text returns the record: sequence, LOCUS
 fields, DEFINITION … ORGANISM, references, extra keyword blocks, and every feature with key, location text
 and qualifier values.  The layout choices also cover: empty standard blocks written or left out, extra keyword
-blocks (DBLINK, COMMENT, …) in any of the seven places between LOCUS and FEATURES, qualifier values quoted,
+blocks (DBLINK, COMMENT, …) in any of the seven places between LOCUS and FEATURES and (CONTIG) between the
+feature table and ORIGIN, qualifier values quoted,
 unquoted or absent, location texts of every INSDC shape (order, bond, gap, n.m, n^m, remote). -/
 theorem parse_layout (r : GbRec) (ℓ : RecLayout) (finalNewline : Bool) (h : WF r) :
     parse (layoutText r ℓ finalNewline) = .ok (toSequence r) :=
@@ -159,7 +162,7 @@ theorem parse_layout_last_wins (r : GbRec) (ℓ : RecLayout) (finalNewline : Boo
   parse_layoutText_loose r ℓ finalNewline h
 
 /-- a small record exercising every section: two-digit length, a locus called `linear` that is circular,
-wrapped definition, KEYWORDS left out, DBLINK before KEYWORDS, a reference whose journal continues with the word SOURCE, a COMMENT continuing with the
+wrapped definition, KEYWORDS left out, DBLINK before KEYWORDS, CONTIG after the feature table, a reference whose journal continues with the word SOURCE, a COMMENT continuing with the
 word TITLE, a multi-line location without qualifier, an `order(…)` location with a value-less qualifier, a feature whose value
 continues with `/b`, a key with capitals and an unquoted value -/
 def exampleRec : GbRec :=
@@ -167,7 +170,7 @@ def exampleRec : GbRec :=
     definition := c!"a small test record", accession := c!"X1", version := c!"X1.1", keywords := []
     source := c!"synthetic construct", organism := c!"synthetic construct"
     refs := [{ range := c!"(bases 1 to 12)", authors := c!"A B", journal := c!"open SOURCE code", pubmed := c!"123" }]
-    extras := [(c!"DBLINK", c!"BioProject: PRJNA1"), (c!"COMMENT", c!"see TITLE page")]
+    extras := [(c!"DBLINK", c!"BioProject: PRJNA1"), (c!"COMMENT", c!"see TITLE page"), (c!"CONTIG", c!"join(X1.1:1..12)")]
     features := [{ key := c!"gene", loc := c!"join(1..2,3..4)" },
                  { key := c!"misc_feature", loc := c!"order(1..5,7..9)", quals := [(c!"pseudo", [])] },
                  { key := c!"CDS", loc := c!"1..12", quals := [(c!"note", c!"a /b=c"), (c!"translation", c!"MKV"),
@@ -175,7 +178,7 @@ def exampleRec : GbRec :=
     seq := c!"acgtacgtacgt" }
 
 def exampleLay : RecLayout :=
-  { definition := [7], refs := [{ journal := [4] }], extras := [[], [3]], extraCuts := [0, 0, 0, 1], omitKeywords := true
+  { definition := [7], refs := [{ journal := [4] }], extras := [[], [3], []], extraCuts := [0, 0, 0, 1, 0, 0, 1], omitKeywords := true
     feats := [{ loc := [9] }, { styles := [2] }, { quals := [[1], [2]], styles := [0, 0, 0, 1] }] }
 
 example : WF exampleRec ∧ noSlashEnd exampleRec exampleLay = true := by
